@@ -254,7 +254,7 @@ PROPS['C14'] = C14Spec(
     'mode) and a seeded sample of fault pairs is injected, each under a '
     'seeded clock plan; non-trivial = some round did not end in a proven '
     'optimum; distinct = distinct event-log digests among those',
-    {'quick': 400, 'thorough': 12000},
+    {'quick': 1500, 'thorough': 30000},
     required_probes=('cut-short:tl-incumbent', 'cut-short:tl-no-incumbent',
                      'cut-short:status:Not Solved', 'cut-after-first-round'))
 PROPS['C14'].oracle = oracles.c14
@@ -322,7 +322,7 @@ PROPS['C16'] = C16Spec(
     'spy; (c) a status fault at a seeded round: reported prefix; non-trivial '
     '= flags given out of position order, or a refusal; distinct = distinct '
     'event-log digests among those',
-    {'quick': 12000, 'thorough': 400000},
+    {'quick': 40000, 'thorough': 1000000},
     required_probes=('refuse:pos-out-of-range', 'refuse:duplicate-pos',
                      'refuse:stab-without-twopl', 'refuse-with-missing-file',
                      'prefix-under-injected-fault', 'gapped'))
@@ -355,7 +355,7 @@ PROPS['C18'] = C18Spec(
     'solve, LP and brute-force mode, back end drawing a fresh optimal '
     'tie-break on every solve; non-trivial = history with a second solve or '
     'a repeated getter; distinct = distinct event-log digests among those',
-    {'quick': 12000, 'thorough': 400000},
+    {'quick': 30000, 'thorough': 800000},
     required_probes=('different-matchings-across-solves',
                      'repeated-getter-calls', 'bf'))
 PROPS['C18'].oracle = oracles.c18
@@ -428,7 +428,7 @@ PROPS['C06'] = C06Spec(
     'solve(); one run in four is a fault-free -stab run (corollary); '
     'non-trivial = run containing at least one assignment with a blocking '
     'pair; distinct = distinct event-log digests among those',
-    {'quick': 8000, 'thorough': 300000},
+    {'quick': 20000, 'thorough': 600000},
     required_probes=('blocking:3a', 'blocking:3b-in', 'blocking:3b-pref',
                      'blocking:3c', 'full-and-empty-agent',
                      'fault-free-stab'))
@@ -604,7 +604,7 @@ PROPS['C08'] = GenSpec(
     'reachability run (>= 360 lists of one (pmin,pmax) class: every length '
     'must occur); every run is checked in full, so every run is non-trivial; '
     'distinct = distinct event-log digests',
-    {'quick': 6000, 'thorough': 150000}, oracles_gen.c08,
+    {'quick': 20000, 'thorough': 500000}, oracles_gen.c08,
     required_probes=('mp:ha', 'mp:sm', 'mp:hr', 'mp:spa', 't1-extreme',
                      't2-extreme', 'reachability-run', 'one-sided',
                      'more-lecturers-than-projects'))
@@ -613,7 +613,7 @@ PROPS['C12'] = GenSpec(
     'seeded two-sided sm/hr/spa generator runs x two RNG seeds; non-trivial = '
     'some second-side agent is ranked by at least two first-side agents; '
     'distinct = distinct event-log digests among those',
-    {'quick': 6000, 'thorough': 150000}, oracles_gen.c12,
+    {'quick': 30000, 'thorough': 800000}, oracles_gen.c12,
     required_probes=('student-ranks-several-projects-of-a-lecturer',
                      'second-side-agent-nobody-ranks',
                      'more-lecturers-than-projects'))
@@ -626,8 +626,10 @@ PROPS['C13'] = GenSpec(
     'pairs hit out of the 127 with length <= 6 (seeded search with a '
     'coverage measure, not exhaustive enumeration); non-trivial = a list of '
     'length >= 2 made the round trip',
-    {'quick': 5000, 'thorough': 120000}, oracles_gen.c13,
-    required_probes=('second-side-list-checked', 'na:2', 'na:3'))
+    {'quick': 20000, 'thorough': 500000}, oracles_gen.c13,
+    required_probes=('second-side-list-checked', 'na:2', 'na:3',
+                     'writer-decisions-observed',
+                     'second-side-file-vs-reader'))
 PROPS['C09'] = GenSpec(
     'C09',
     'seeded generator argument vectors (small: <= 4 agents per side, lists '
@@ -636,7 +638,7 @@ PROPS['C09'] = GenSpec(
     'two-sided, stand-in back end with seeded tie-break) and in brute-force '
     'mode, in one simulated world; every run is a full comparison with the '
     'reference parse and semantics; distinct = distinct event-log digests',
-    {'quick': 4000, 'thorough': 100000}, oracles_gen.c09,
+    {'quick': 15000, 'thorough': 400000}, oracles_gen.c09,
     required_probes=('mp:ha', 'mp:sm', 'mp:hr', 'mp:spa', 'session:bf',
                      'session:lp', 'lp-stab', 'bf-infeasible',
                      'lp-infeasible'))
@@ -648,6 +650,6 @@ PROPS['C15'] = C15Spec(
     'violated); acceptance with numinst files, or SystemExit(2) with usage '
     'text and zero mkdir/write events in the audit-hook spy; distinct = '
     'distinct event-log digests (every run is non-trivial)',
-    {'quick': 1500, 'thorough': 40000}, oracles_gen.c15,
+    {'quick': 5000, 'thorough': 100000}, oracles_gen.c15,
     required_probes=('accept:ha', 'accept:sm', 'accept:hr', 'accept:spa',
                      'reject:drop-required', 'reject:banned', 'reject:bound'))
